@@ -122,3 +122,13 @@ Theorem C05_compute_leaves_are_the_regional_maxima :
      exists t', In t' (fnodes (compute shape (AdjGrid per) vals minv [])) /\ topof t' a).
 Proof. exact compute_leaves_are_regional_maxima. Qed.
 Print Assumptions C05_compute_leaves_are_the_regional_maxima.
+
+(* saturated (+inf) pixels: min_delta as the implementation evaluates it (rise = top - bottom, the
+   NaN of inf - inf counted as no rise) is the model's test on the data with +inf embedded as a
+   finite M far above everything else *)
+From Dendro Require Import ExtVal.
+Theorem C05_min_delta_with_saturated_pixels :
+  forall B M, 2 * B < M -> forall d top bottom, 0 <= d <= B -> bounded B top -> bounded B bottom ->
+    ext_rise_ok d top bottom = (d <=? emb M top - emb M bottom).
+Proof. exact emb_rise_ok. Qed.
+Print Assumptions C05_min_delta_with_saturated_pixels.
